@@ -69,7 +69,11 @@ def contracts():
                   # a boolean is never a number; null only if nullable
                   'implies(value is None, result == %s)' % nullable,
                   'implies(value is not None, result == %s)' % accept,
-                  'implies(%s == 1, result is False)' % TAG],
+                  'implies(%s == 1, result is False)' % TAG,
+                  # acceptance depends on the KIND of the value alone, never
+                  # on its magnitude (huge, infinite, NaN: still numbers)
+                  'len([e for e in calls if e[0].startswith("math.")]) '
+                  '== 0'],
               serves=('C15', 'C05'))
     # ---- convert: quota check on the VALUE that is handed on ------------
     c(Y + 'SmartType.convert',
